@@ -1,7 +1,6 @@
 (* Theory/Reconf52Revs.v -- C52: no revision stored anywhere in the world is lost by a completed
-   reconfiguration -- unless a repository is destroyed without having been fetched from (the
-   executable guard [fetch_guard]); and the revisions reachable from a kept local branch's tip stay
-   in that branch's repository. *)
+   reconfiguration (a repository is always fetched from before it is destroyed); the revisions
+   reachable from the tip and the pending merges of a kept tree stay in the branch's repository. *)
 From Coq Require Import List Bool Arith String Lia.
 Import ListNotations.
 From BV Require Import Lib.Obs Lib.Dag Theory.DagFacts Model.Reconf52 Theory.Reconf52Base Theory.Reconf52Wf
@@ -14,10 +13,6 @@ Definition rest (w : world) : list revid :=
   orevs (w_outer w) ++ own_revs (w_inner w) ++ own_revs (w_sib w) ++ own_revs (w_far w).
 Lemma all_revs_rest w : all_revs w = orevs (w_repo w) ++ rest w.
 Proof. reflexivity. Qed.
-
-(* apply() fetches out of the repository it is about to destroy *)
-Definition fetch_guard (p : plan) (w0 : world) : bool :=
-  negb (p_destroy_repository p) || p_create_reference p || (has_local w0 && negb (p_destroy_branch p)).
 
 Lemma incl_union_r (a b : list revid) : incl b (union a b).
 Proof. intros x Hx. apply In_union. right. exact Hx. Qed.
@@ -60,7 +55,6 @@ Qed.
 Section Revs.
 Variables (p : plan) (w0 : world) (nb : option loc).
 Hypothesis Hwf : plan_wf p w0 = true.
-Hypothesis Hguard : fetch_guard p w0 = true.
 
 Definition Inv3 (j : nat) (w : world) : Prop :=
   (j = 0 -> w = w0)
@@ -90,6 +84,26 @@ Proof.
   unfold rest. intros H.
   destruct l as [|[|[|l]]]; cbn in Hl; try discriminate Hl; cbn [set_other w_outer w_inner w_sib w_far own_revs o_own];
     rewrite Hl in H; cbn [own_revs] in H; rewrite !in_app_iff in *; rewrite In_union; tauto.
+Qed.
+
+Lemma place_repo_add_mono w l o rs w' :
+  place_repo_add w l o rs = Some w' -> get_other w l = Some o -> incl (all_revs w) (all_revs w').
+Proof.
+  unfold place_repo_add. intros Ep Eo.
+  destruct (place_repo w l o) as [[|[|k]]|]; [| | |discriminate Ep].
+  - injection Ep as <-.
+    assert (Hr : w_repo (set_other w l (mkOB (o_tip o) (o_tags o) (Some (union rs (match o_own o with Some y => y | None => [] end)))))
+                 = w_repo w) by (destruct l as [|[|[|l]]]; reflexivity).
+    intros x Hx. rewrite all_revs_rest in *. rewrite Hr.
+    apply in_app_or in Hx. apply in_or_app. destruct Hx as [Hx|Hx]; [left; exact Hx|right].
+    apply rest_set_other; [exact Eo|left; exact Hx].
+  - destruct (w_repo w) as [r|] eqn:Er; [|discriminate Ep]. injection Ep as <-.
+    intros x Hx. unfold all_revs in *. cbn [set_repo w_repo w_outer w_inner w_sib w_far orevs add_revs r_revs].
+    rewrite Er in Hx. cbn [orevs] in Hx. apply in_app_or in Hx. apply in_or_app.
+    destruct Hx as [Hx|Hx]; [left; apply In_union; right; exact Hx|right; exact Hx].
+  - destruct (w_outer w) as [r|] eqn:Eou; [|discriminate Ep]. injection Ep as <-.
+    intros x Hx. unfold all_revs in *. cbn [set_outer w_repo w_outer w_inner w_sib w_far orevs add_revs r_revs].
+    rewrite Eou in Hx. cbn [orevs] in Hx. rewrite !in_app_iff in *. rewrite In_union. tauto.
 Qed.
 
 Lemma Inv3_step j s w1 w2 :
@@ -132,7 +146,12 @@ Proof.
     destruct HI as (I0 & I1 & I2 & I3). split; [lia|]. split; [intros; lia|].
     unfold step_destroy_repository_fetch in Hs.
     destruct (p_destroy_repository p) eqn:Ed.
-    2:{ injection Hs as <-. split; [exact I2|intros _ _ Hd; discriminate Hd]. }
+    2:{ split; [|intros _ _ Hd; discriminate Hd].
+        destruct (p_create_reference p && is_some (local_of w0)); [|injection Hs as <-; exact I2].
+        destruct (select_bind w0 nb) as [l|]; [|discriminate Hs].
+        destruct (get_other w1 l) as [o|] eqn:Eo; [|discriminate Hs].
+        destruct (place_repo_add w1 l o _) as [w3|] eqn:Ep; [|discriminate Hs]. injection Hs as <-.
+        intros x Hx. apply (place_repo_add_mono _ _ _ _ _ Ep Eo). apply I2. exact Hx. }
     specialize (I1 ltac:(lia) eq_refl).
     destruct (wf_drp _ _ Hwf Ed) as (Hsome & _ & _ & Hunsh).
     assert (Hall : incl (orevs (w_repo w1)) (orevs (find_repo w1))).
@@ -162,15 +181,13 @@ Proof.
            rewrite !in_app_iff in *. rewrite In_union. tauto.
         -- intros _ _ _ x Hx. unfold rest. cbn [set_outer w_repo w_outer w_inner w_sib w_far orevs add_revs r_revs].
            apply in_or_app. left. apply In_union. left. apply Hall. exact Hx.
-    + destruct (is_some (local_of w0) && negb (p_destroy_branch p)) eqn:Ek.
-      * destruct (w_outer w1) as [r|] eqn:Eou; [|discriminate Hs]. injection Hs as <-.
-        split.
-        -- intros x Hx. specialize (I2 x Hx). unfold all_revs in *.
-           cbn [set_outer w_repo w_outer w_inner w_sib w_far orevs add_revs r_revs]. rewrite Eou in I2. cbn [orevs] in I2.
-           rewrite !in_app_iff in *. rewrite In_union. tauto.
-        -- intros _ _ _ x Hx. unfold rest. cbn [set_outer w_repo w_outer w_inner w_sib w_far orevs add_revs r_revs].
-           apply in_or_app. left. apply In_union. left. apply Hall. exact Hx.
-      * exfalso. unfold fetch_guard, has_local in Hguard. rewrite Ed, Ecr, Ek in Hguard. discriminate Hguard.
+    + destruct (w_outer w1) as [r|] eqn:Eou; [|discriminate Hs]. injection Hs as <-.
+      split.
+      * intros x Hx. specialize (I2 x Hx). unfold all_revs in *.
+        cbn [set_outer w_repo w_outer w_inner w_sib w_far orevs add_revs r_revs]. rewrite Eou in I2. cbn [orevs] in I2.
+        rewrite !in_app_iff in *. rewrite In_union. tauto.
+      * intros _ _ _ x Hx. unfold rest. cbn [set_outer w_repo w_outer w_inner w_sib w_far orevs add_revs r_revs].
+        apply in_or_app. left. apply In_union. left. apply Hall. exact Hx.
   - (* destroy_reference *)
     pose proof (s5a_frame p w1) as F. rewrite (ok_world _ _ _ Hs) in F. cbn in F.
     destruct F as (_ & Fr & Fo & _ & Fi & Fs & Ff).
@@ -230,12 +247,11 @@ Proof.
 Qed.
 End Revs.
 
-Theorem no_revision_lost_guarded t force nb w w' p :
-  factory w t = inl p -> fetch_guard p w = true ->
+Theorem no_revision_lost t force nb w w' :
   reconfigure t force nb w = Ok w' -> forall r, In r (all_revs w) -> In r (all_revs w').
 Proof.
-  intros Hf Hg H r Hr. unfold reconfigure in H. rewrite Hf in H.
-  exact (apply_no_loss p w nb (factory_wf _ _ _ Hf) Hg force w' H r Hr).
+  intros H r Hr. unfold reconfigure in H. destruct (factory w t) as [p|e] eqn:Hf; [|discriminate H].
+  exact (apply_no_loss p w nb (factory_wf _ _ _ Hf) force w' H r Hr).
 Qed.
 
 (* ---- the revisions reachable from the tip stay in the branch's repository ------------------------
@@ -248,7 +264,24 @@ Hypothesis Hncr : p_create_reference p = false.
 Hypothesis Htip : eff_tip w0 = Some tp.
 Hypothesis Hown : has_local w0 = true \/ p_create_branch p = true.
 
-Definition R0 : list revid := fetched (w_g w0) (eff_revs w0) tp.
+(* what must stay visible: the tip's ancestry, and the pending merges of a tree that is kept *)
+Definition P0 : list revid := filter (fun m => memb m (eff_revs w0)) (pending_of p w0).
+Definition R0 : list revid := fetched (w_g w0) (eff_revs w0) tp ++ P0.
+
+Lemma pend_fetch_self g src ms x : In x ms -> memb x src = true -> In x (pend_fetch g src ms).
+Proof.
+  intros Hx Hm. unfold pend_fetch. apply in_flat_map. exists x. split; [exact Hx|]. rewrite Hm.
+  unfold fetched. apply filter_In. split; [|exact Hm].
+  unfold ancestors. apply close_down_incl. left. reflexivity.
+Qed.
+
+Lemma R0_in g src t x : g = w_g w0 -> src = eff_revs w0 -> t = tp ->
+  In x R0 -> In x (fetched g src t ++ pend_fetch g src (pending_of p w0)).
+Proof.
+  intros -> -> -> Hx. unfold R0 in Hx. apply in_app_or in Hx. apply in_or_app.
+  destruct Hx as [Hx|Hx]; [left; exact Hx|right].
+  unfold P0 in Hx. apply filter_In in Hx. destruct Hx as [Hx Hm]. apply pend_fetch_self; assumption.
+Qed.
 Definition Q (w : world) : Prop := incl R0 (orevs (find_repo w)).
 
 Definition Inv4 (j : nat) (w : world) : Prop :=
@@ -296,9 +329,9 @@ Proof.
     + injection Hs as <-. split; [reflexivity|]. split; [|split; [intros; lia|intros; lia]].
       intros Hl. unfold Q, find_repo. cbn [set_repo w_repo orevs r_revs]. rewrite wf_db. cbn [negb andb].
       unfold has_local in Hl. rewrite Hl. cbn [andb].
-      intros x Hx. apply In_union. left. unfold R0 in Hx.
-      unfold eff_tip, eff_revs, local_of in *. destruct (w_branch w0) as [|b|l]; try discriminate Hl.
-      injection Htip as <-. exact Hx.
+      intros x Hx. apply In_union. left. apply R0_in; [reflexivity| |  |exact Hx];
+        unfold eff_tip, eff_revs, local_of in *; destruct (w_branch w0) as [|b|l]; try discriminate Hl;
+        [reflexivity|injection Htip as <-; reflexivity].
     + injection Hs as <-. split; [reflexivity|]. split; [exact I1|]. split; [intros; lia|intros; lia].
   - (* fetch_referenced *)
     destruct HI as (I0 & Ig & I1 & I2 & I3). split; [lia|].
@@ -314,17 +347,18 @@ Proof.
     destruct (loc_repo_add w1 _) as [w3|] eqn:El; [|discriminate Hs]. injection Hs as <-.
     pose proof (loc_repo_add_frame _ _ _ El) as (Fg & _).
     split; [congruence|]. split; [intros H; congruence|]. split; [|intros; lia].
-    intros _ _. unfold Q, R0.
+    intros _ _. unfold Q.
     assert (Er : eff_revs w0 = src /\ tp = o_tip o).
     { unfold eff_revs, eff_tip, refd_of in *. destruct (w_branch w0) as [|b|l']; try discriminate.
       destruct (get_other w0 l') as [o'|]; [|discriminate]. injection Href as -> ->. rewrite Epr.
       injection Htip as <-. auto. }
-    destruct Er as [-> ->]. rewrite Ig in El.
+    destruct Er as [Er1 Er2]. rewrite Ig in El.
     revert El. unfold loc_repo_add, find_repo.
-    destruct (w_repo w1) as [r|] eqn:Er; [|destruct (w_outer w1) as [r|]; [|discriminate]];
+    destruct (w_repo w1) as [r|] eqn:Erp; [|destruct (w_outer w1) as [r|]; [|discriminate]];
       intros El; injection El as <-; cbn [set_repo set_outer w_repo w_outer orevs add_revs r_revs];
-      rewrite ?Er; cbn [orevs add_revs r_revs];
-      intros x Hx; apply In_union; left; exact Hx.
+      rewrite ?Erp; cbn [orevs add_revs r_revs];
+      intros x Hx; apply In_union; left;
+      (apply R0_in; [reflexivity|symmetry; exact Er1|symmetry; exact Er2|exact Hx]).
   - (* open_reference *)
     pose proof (s3_frame p w0 nb w1) as F. rewrite (ok_world _ _ _ Hs) in F. subst w2.
     destruct HI as (I0 & Ig & I1 & I2 & I3). split; [lia|]. split; [exact Ig|]. split; [exact I1|].
@@ -333,24 +367,22 @@ Proof.
     destruct HI as (I0 & Ig & I1 & I2 & I3). split; [lia|].
     unfold step_destroy_repository_fetch in Hs.
     destruct (p_destroy_repository p) eqn:Ed.
-    2:{ injection Hs as <-. split; [exact Ig|]. split; [exact I1|]. split; [intros H _; apply I2; [exact H|lia]|].
+    2:{ rewrite Hncr in Hs. cbn [andb] in Hs. injection Hs as <-.
+        split; [exact Ig|]. split; [exact I1|]. split; [intros H _; apply I2; [exact H|lia]|].
         intros _ _ Hd; discriminate Hd. }
-    rewrite Hncr, wf_db in Hs. cbn [negb andb] in Hs. rewrite andb_true_r in Hs.
-    destruct (is_some (local_of w0)) eqn:Hl.
-    + destruct (w_outer w1) as [r|] eqn:Eou; [|discriminate Hs]. injection Hs as <-.
-      assert (Fr : find_repo (set_outer w1 (Some (add_revs (orevs (find_repo w1)) r))) = find_repo w1 \/
-                   (w_repo w1 = None)).
-      { unfold find_repo. cbn [set_outer w_repo]. destruct (w_repo w1); auto. }
-      split; [exact Ig|]. split.
-      * intros H. specialize (I1 H). unfold Q in *. destruct Fr as [Fr|Fr]; [rewrite Fr; exact I1|].
-        unfold find_repo in *. cbn [set_outer w_repo w_outer]. rewrite Fr in *. rewrite Eou in I1.
-        cbn [orevs add_revs r_revs] in *. intros x Hx. apply In_union. right. apply I1. exact Hx.
-      * split.
-        -- intros H. destruct (wf_cb_nolocal H) as [_ C]. congruence.
-        -- intros _ _ _. cbn [set_outer w_repo w_outer is_some orevs add_revs r_revs]. split; [reflexivity|].
-           intros x Hx. apply In_union. left. unfold find_repo. destruct (w_repo w1); [exact Hx|destruct Hx].
-    + exfalso. destruct (wf_drp _ _ Hwf Ed) as (_ & Hcb & _).
-      destruct Hown as [H|H]; [unfold has_local in H; congruence|congruence].
+    rewrite Hncr in Hs.
+    destruct (w_outer w1) as [r|] eqn:Eou; [|discriminate Hs]. injection Hs as <-.
+    assert (Fr : find_repo (set_outer w1 (Some (add_revs (orevs (find_repo w1)) r))) = find_repo w1 \/
+                 (w_repo w1 = None)).
+    { unfold find_repo. cbn [set_outer w_repo]. destruct (w_repo w1); auto. }
+    split; [exact Ig|]. split.
+    + intros H. specialize (I1 H). unfold Q in *. destruct Fr as [Fr|Fr]; [rewrite Fr; exact I1|].
+      unfold find_repo in *. cbn [set_outer w_repo w_outer]. rewrite Fr in *. rewrite Eou in I1.
+      cbn [orevs add_revs r_revs] in *. intros x Hx. apply In_union. right. apply I1. exact Hx.
+    + split.
+      * intros H. destruct (wf_cb_nolocal H) as [_ C]. congruence.
+      * intros _ _ _. cbn [set_outer w_repo w_outer is_some orevs add_revs r_revs]. split; [reflexivity|].
+        intros x Hx. apply In_union. left. unfold find_repo. destruct (w_repo w1); [exact Hx|destruct Hx].
   - (* destroy_reference *)
     pose proof (s5a_frame p w1) as F. rewrite (ok_world _ _ _ Hs) in F. cbn in F.
     destruct F as (Fg & Fr & Fo & _). apply (Inv4_keep 4 w1 w2); auto; lia.
@@ -398,21 +430,29 @@ Proof.
   intros H. apply (apply_ok_inv Inv4 force nb p w0 w') in H; [| |exact Inv4_step].
   - destruct H as (_ & _ & I1 & I2 & _). destruct Hown as [Hl|Hc]; [apply I1; exact Hl|apply I2; [exact Hc|lia]].
   - split; [auto|]. split; [auto|]. split; [|split; [intros; lia|intros; lia]].
-    intros Hl. unfold Q, R0. unfold has_local, local_of, eff_revs in *.
-    destruct (w_branch w0); try discriminate Hl. intros x Hx. unfold fetched in Hx.
-    destruct tp; [|destruct Hx]. apply filter_In in Hx. destruct Hx as [_ Hx]. apply memb_In. exact Hx.
+    intros Hl. unfold Q, R0, P0. unfold has_local, local_of, eff_revs in *.
+    destruct (w_branch w0); try discriminate Hl. intros x Hx. apply in_app_or in Hx. destruct Hx as [Hx|Hx].
+    + unfold fetched in Hx.
+      destruct tp; [|destruct Hx]. apply filter_In in Hx. destruct Hx as [_ Hx]. apply memb_In. exact Hx.
+    + apply filter_In in Hx. destruct Hx as [_ Hx]. apply memb_In. exact Hx.
 Qed.
 End Ancestry.
 
+(* Both the ancestry of the tip and the pending merges of a tree that is kept.  Proved for every
+   reconfiguration after which the location holds a branch of its own. *)
 Theorem preserves_ancestry_partial t force nb w w' p tp :
   factory w t = inl p -> p_create_reference p = false ->
   has_local w = true \/ p_create_branch p = true ->
   reconfigure t force nb w = Ok w' -> eff_tip w = Some tp ->
-  forall r, In r (fetched (w_g w) (eff_revs w) tp) -> In r (eff_revs w').
+  forall r, In r (fetched (w_g w) (eff_revs w) tp)
+            \/ (In r (pending_of p w) /\ In r (eff_revs w)) -> In r (eff_revs w').
 Proof.
   intros Hf Hn Ho H Ht r Hr. unfold reconfigure in H. rewrite Hf in H.
   pose proof (factory_wf _ _ _ Hf) as Hwf.
-  pose proof (apply_ancestry p w nb tp Hwf Hn Ht Ho force w' H r Hr) as HQ.
+  assert (Hr' : In r (R0 p w tp)).
+  { unfold R0, P0. apply in_or_app. destruct Hr as [Hr|[Hr1 Hr2]]; [left; exact Hr|right].
+    apply filter_In. split; [exact Hr1|apply memb_In; exact Hr2]. }
+  pose proof (apply_ancestry p w nb tp Hwf Hn Ht Ho force w' H r Hr') as HQ.
   destruct (apply_final p w nb force w' H) as (Hb & _).
   unfold eff_revs. rewrite Hb. cbn [branch_at]. unfold B11, B10, B8. rewrite Hn.
   assert (Hk : match B7 p w with BRef _ => False | _ => True end).
@@ -422,4 +462,17 @@ Proof.
     destruct (p_destroy_branch p), (p_destroy_reference p); exact I. }
   destruct (B7 p w) as [|b|l]; [| |contradiction];
     destruct (p_unbind p), (p_bind p); cbn; exact HQ.
+Qed.
+
+(* in particular: the pending merges of a kept working tree stay available to its branch *)
+Theorem pending_merges_kept_partial t force nb w w' p tp tr :
+  factory w t = inl p -> p_create_reference p = false ->
+  has_local w = true \/ p_create_branch p = true ->
+  reconfigure t force nb w = Ok w' -> eff_tip w = Some tp ->
+  w_tree w = Some tr -> p_destroy_tree p = false ->
+  forall m, In m (List.tl (t_parents tr)) -> In m (eff_revs w) -> In m (eff_revs w').
+Proof.
+  intros Hf Hn Ho H Ht Htr Hd m Hm Hm2.
+  apply (preserves_ancestry_partial t force nb w w' p tp Hf Hn Ho H Ht). right. split; [|exact Hm2].
+  unfold pending_of. rewrite Htr, Hd. exact Hm.
 Qed.
